@@ -28,7 +28,10 @@ RULE = ("one run = one wallet (1..2 accounts, one fee rate and one of the 7 stra
         "(net, 30 %) broadcasts go through Ledger.broadcast / broadcast_or_release to a stub server that accepts or "
         "refuses (RPCError) after 0..10 ms; (cancel, 30 %) 1..2 Transaction.create builds are cancelled with "
         "task.cancel() when they submit their k-th database job (k = 1..7; the job itself had started and still "
-        "runs to its end, nothing is reordered or dropped). Non-trivial = at least two builds overlapped in time "
+        "runs to its end, nothing is reordered or dropped); (prechosen, 35 %) 1..3 further Transaction.create builds in "
+        "the txo_spend pattern: when such a build starts, its caller names plain UNRESERVED outputs of the funding "
+        "account that are free at that instant as pre-chosen inputs (sweep, or a payment they do not cover). "
+        "Non-trivial = at least two builds overlapped in time "
         "and one succeeded; distinct = distinct event-trace digest.")
 COMPONENTS = {
     'real': ['lbry.wallet.ledger.Ledger.get_spendable_utxos/_utxo_reservation_lock/reserve_outputs/release_tx/'
@@ -55,6 +58,12 @@ ASSUMPTIONS = [
     'pre-chosen inputs of Transaction.create builds are reserved sequentially by the harness before the concurrent '
     'phase starts; Account.fund(everything=True) reads and reserves its inputs itself, concurrently',
     'Account.fund builds are never cancelled (only Transaction.create builds are)',
+    'a caller that names pre-chosen inputs does so from a listing taken at the instant it calls create() (outputs free '
+    'in the model and held by no running build). If another build is handed such an output before the naming build '
+    'has reserved it, the listing was stale: create() accepts any pre-chosen input by contract, so that run is not '
+    'judged further (probe prechosen_stale_run); an output the naming build HAS reserved must not be handed out again. '
+    'The same holds when the named output is already is_reserved at the instant the naming build reserves it (it was '
+    'reserved on behalf of a selection the harness cannot see, e.g. of a build cancelled meanwhile)',
 ]
 EXPECTED_PROBES = ['builds_overlapping', 'selection_waited_on_lock', 'build_ok', 'build_failed_insufficient',
                    'failed_while_holding', 'released_early', 'broadcast', 'reselected_after_release',
@@ -64,7 +73,9 @@ EXPECTED_PROBES = ['builds_overlapping', 'selection_waited_on_lock', 'build_ok',
                    'fund_everything_build', 'fund_everything_preview', 'fund_everything_broadcast',
                    'fund_amount_build', 'fund_reserved_while_other_selecting', 'net_accepted', 'net_refused',
                    'refused_then_released_by_product', 'cancel_fired', 'cancel_after_reservation',
-                   'cancel_in_selection', 'cancel_not_reached', 'cancelled_while_holding']
+                   'cancel_in_selection', 'cancel_not_reached', 'cancelled_while_holding',
+                   'prechosen_unreserved_build', 'prechosen_reserved_by_build',
+                   'prechosen_reserved_while_other_selecting', 'prechosen_stale_run']
 
 
 # ---------------------------------------------------------------------------------------------------
@@ -168,6 +179,26 @@ def gen(run_seed, tier):
             op['cancel_at'] = rc.randint(1, 7)
         if plain:
             features.append('cancel')
+    rp = stream('C14.gen.prechosen', run_seed)
+    room = 12 - sum(1 for op in ops if op.get('op') == 'build')
+    if rp.random() < 0.35 and room > 0:
+        # the txo_spend pattern: the caller names plain, unreserved outputs of the funding account at the moment it
+        # calls create(); the build itself has to make them unavailable to the overlapping selections
+        features.append('prechosen')
+        for _ in range(min(room, rp.choice([1, 1, 2, 3]))):
+            acct = rp.randrange(n_accounts)
+            b = {'op': 'build', 'start': round(rp.uniform(0, spread), 6), 'funding': [acct], 'change': acct,
+                 'sign': rp.random() < 0.5, 'then': rp.choices(['hold', 'release', 'broadcast'], [3, 4, 3])[0],
+                 'after': rp.choice([0.0, 0.0, 0.001, 0.01]), 'bheight': rp.choice([0, -1, 50]), 'pre_unreserved': True,
+                 'pre': rp.choice([[round(rp.random(), 3)], [round(rp.random(), 3)], ['smallest', 1],
+                                   [round(rp.random(), 3), round(rp.random(), 3)]])}
+            if rp.random() < 0.6:
+                b['outputs'] = []                       # sweep
+            else:
+                b['outputs'] = [{'k': 'pay', 'ext': rp.randrange(1000),
+                                 'amount': rp.choice([['pre', -rp.randrange(0, W.cost_of_change(rate) + W.DUST)],
+                                                      ['pre', rp.choice([1, 10 ** 5])], ['abs', max(1, typical // 3)]])}]
+            ops.append(b)
     if features:
         sc['family'] = 'conc+' + '+'.join(features)
     return sc
@@ -207,8 +238,10 @@ def shrink(sc):
                 if op.get('start'):
                     yield rep(dict(op, start=0.0))
                 continue
-            if op.get('pre'):
+            if op.get('pre') and not op.get('pre_unreserved'):
                 yield rep(dict(op, pre=None))
+            if op.get('pre_unreserved') and len(op.get('pre') or []) > 1 and op['pre'][0] != 'smallest':
+                yield rep(dict(op, pre=op['pre'][:1]))
             if op.get('sign', True):
                 yield rep(dict(op, sign=False))
             if op.get('then') != 'hold':
@@ -264,6 +297,9 @@ def execute(scenario, keep_trace=False):
     selecting = [0]
     stats = {'overlap': 0, 'ok': 0}
     victims = {}         # build id -> k: cancel when the build submits its k-th database job
+    named = {}           # outpoint -> build id whose caller named it as a pre-chosen, unreserved input
+    named_seq = {}       # outpoint -> its acquisition count at the naming
+    domain_exit = []     # reasons why the rest of the run is outside the statement (nothing is judged any more)
 
     def acquire(op, bid):
         held[op] = bid
@@ -277,7 +313,7 @@ def execute(scenario, keep_trace=False):
     def acquired(b, ops, what):
         """Outpoints were handed to build b (selection returned / its own reservation returned)."""
         bid = b.bid if b is not None else -1
-        if run.violations:
+        if run.violations or domain_exit:
             return                  # the first violation is the verdict; what follows it is noise
         for op in ops:
             if op in held:
@@ -288,7 +324,8 @@ def execute(scenario, keep_trace=False):
                               f'{hb.state if hb else "?"}) holds since its own selection; strategy {sim.strategy}; '
                               f'freed meanwhile by: {foreign_freed.get(op, "nobody")}',
                               holder='same_build' if holder == bid else (hb.state if hb else 'unknown'),
-                              via=kind_of(bid), holder_via=kind_of(holder), freed_by=foreign_freed.get(op, 'nobody'))
+                              via=kind_of(bid), holder_via=kind_of(holder), freed_by=foreign_freed.get(op, 'nobody'),
+                              prechosen='holder' if named.get(op) == holder else 'no')
                 return
             if op in was_released:
                 run.probes['reselected_after_release'] += 1
@@ -315,6 +352,20 @@ def execute(scenario, keep_trace=False):
         if again:
             run.probes['own_hold_reserved_again'] += 1
         ops = [op for op in ops if held.get(op) != bid]
+        # outputs the CALLER named (pre-chosen, unreserved): if another build was handed one of them in the
+        # meantime, the caller's listing was stale - create() accepts any pre-chosen input by contract, two
+        # transactions now spend it, and nothing about the rest of this run is the builds' doing
+        stale = [op for op in ops if named.get(op) == bid and
+                 (op in held or hold_seq.get(op, 0) != named_seq.get(op, 0) or    # handed out since the naming
+                  getattr(b, 'pre_already_reserved', False))]      # ... or reserved for somebody when b reserved it
+        if stale and not run.violations and not domain_exit:
+            domain_exit.append('stale_prechosen')
+            run.probes['prechosen_stale_run'] += 1
+            run.ev('domain_exit', bid, [op[:10] for op in stale])
+        if any(named.get(op) == bid for op in ops) and not stale:
+            run.probes['prechosen_reserved_by_build'] += 1
+            if selecting[0] > 1:
+                run.probes['prechosen_reserved_while_other_selecting'] += 1
         acquired(b, ops, 'own read + reserve_outputs')
         run.ev('reserve', bid, len(ops), [op[:10] for op in ops][:6])
     sim.on_reserve_return = on_reserve_return
@@ -341,7 +392,7 @@ def execute(scenario, keep_trace=False):
     async def visible_check(tag):
         """An outpoint held throughout a get_utxos() call must not be in its result."""
         for i, acct in enumerate(sim.accounts):
-            if run.violations:
+            if run.violations or domain_exit:
                 return True
             snap = {op: hold_seq[op] for op in held}
             got = {t.id for t in await acct.get_utxos(no_tx=True, no_channel_info=True)}
@@ -364,6 +415,18 @@ def execute(scenario, keep_trace=False):
 
     def run_in_executor(executor, func, *args):
         b = W.CURRENT_BUILD.get()
+        if b is not None and b.spec.get('pre_unreserved') and b.pre and b.state == 'running' and \
+                not getattr(b, 'first_job_seen', False):
+            # observation only: the first database job of a build with caller-named inputs is the reservation of
+            # those inputs; were they reserved by somebody else at the instant it executes?
+            b.first_job_seen = True
+            names = [u.op for u in b.pre]
+
+            def first_job(*a):
+                if sim.db_is_reserved(names):
+                    b.pre_already_reserved = True
+                return func(*a)
+            return orig_run_in_executor(executor, first_job, *args)
         if b is None or b.bid not in victims or b.cancel_expected or b.state != 'running':
             return orig_run_in_executor(executor, func, *args)
         b.jobs += 1
@@ -464,6 +527,16 @@ def execute(scenario, keep_trace=False):
         if sim.in_flight:
             run.probes['builds_overlapping'] += 1
             stats['overlap'] += 1
+        if op.get('pre_unreserved'):
+            # the caller's listing is taken now: free in the model and held by no running build; nothing is
+            # awaited between it and the call of create()
+            listed = {r['txoid'] for r in sim.sql("SELECT txoid FROM txo")}    # rows a listing can show at all
+            await sim.prepare(b, exclude=set(held) | {o for o in sim.utxos if o not in listed})
+            for u in b.pre:
+                named[u.op] = b.bid
+                named_seq[u.op] = hold_seq.get(u.op, 0)
+            run.probes['prechosen_unreserved_build' if b.pre else 'prechosen_nothing_to_name'] += 1
+            run.ev('named', b.bid, [u.op[:10] for u in b.pre])
         selecting[0] += 1
         try:
             await sim.create(b)
@@ -477,7 +550,7 @@ def execute(scenario, keep_trace=False):
         # an input the build spends without having been handed it by a selection (or as pre-chosen) would be
         # outside the map; record the hold so the disjointness check sees it
         for i in b.parsed['ins']:
-            if i['op'] not in held:
+            if i['op'] not in held and not domain_exit:
                 acquire(i['op'], b.bid)
         sim.settle_model_after_create(b)
         how = op.get('then', 'hold')
@@ -589,6 +662,9 @@ def execute(scenario, keep_trace=False):
                 b = W.Build(n, op)
                 if b.kind in ('fund_everything', 'fund_amount'):
                     sim.prepare_fund(b)
+                elif op.get('pre_unreserved'):
+                    b.kind = 'create'
+                    sim.builds[b.bid] = b          # its inputs are named when it starts
                 else:
                     b.kind = 'create'
                     await sim.prepare(b)
@@ -597,7 +673,7 @@ def execute(scenario, keep_trace=False):
                     if op.get('cancel_at'):
                         victims[b.bid] = max(1, int(op['cancel_at']))
                 builds.append(b)
-        if victims:
+        if victims or any(b.spec.get('pre_unreserved') for b in builds):
             loop.run_in_executor = run_in_executor      # instance attribute: this run only
         tasks = [asyncio.ensure_future(fund_task(b) if b.kind != 'create' else build_task(b)) for b in builds]
         for n, op in enumerate(ops):
@@ -612,6 +688,10 @@ def execute(scenario, keep_trace=False):
                     raise d            # harness error, never a verdict
         if run.violations:
             return
+        if domain_exit:
+            run.ev('not_judged', domain_exit[0])
+            await sim.close()
+            return
         # ---- end of the concurrent phase: successful unreleased builds are pairwise disjoint --------------
         owner = {}
         for b in builds:
@@ -621,7 +701,8 @@ def execute(scenario, keep_trace=False):
                         return run.violation('C14.double_select', f'builds {owner[i["op"]]} and {b.bid} both spend '
                                              f'{i["op"]} (found at the end)', holder='final_disjointness',
                                              via=b.kind, holder_via=kind_of(owner[i['op']]),
-                                             freed_by=foreign_freed.get(i['op'], 'nobody'))
+                                             freed_by=foreign_freed.get(i['op'], 'nobody'),
+                                             prechosen='holder' if named.get(i['op']) == owner[i['op']] else 'no')
                     owner[i['op']] = b.bid
         if await visible_check('final-held'):
             return
